@@ -213,6 +213,18 @@ func Fprint(w io.Writer, a ...interface{}) (int, error) {
 	return s.n, s.err
 }
 
+func Fprintln(w io.Writer, a ...interface{}) (int, error) {
+	s := &state{w: w}
+	for i, x := range a {
+		if i > 0 {
+			s.Write([]byte{' '})
+		}
+		printValue(s, 'v', x, 0, false)
+	}
+	s.Write([]byte{'\n'})
+	return s.n, s.err
+}
+
 type sink struct{ b []byte }
 
 func (k *sink) Write(p []byte) (int, error) { k.b = append(k.b, p...); return len(p), nil }
